@@ -34,6 +34,7 @@ ASSUMPTIONS = [
 def run(ck: Check) -> None:
     d4(ck)
     c03.g_level(ck, "D5")
+    c03.wrappers(ck, "D5", only=("expand_to_target",))  # ... and the public method really runs it
     d6(ck)
     from . import c06
     c06.d3(ck)   # the end nodes of the successions (classification, reachability of forbidden nodes)
